@@ -32,10 +32,27 @@ pub fn j_series(s: &Series, leap: &LeapTable, out: &mut Local) {
     let start = Epoch::from_duration(mk(s.start), s.ts);
     let end_e = Epoch::from_duration(mk(end), s.end_ts);
     let step = mk(s.step);
+    // series far too long to exhaust (2^53 .. 2^80 items): the first items, and the adaptor path that consults size_hint
+    let huge = n_items > 50_000_000;
     let r = guard(|| {
         let mut it = if s.incl { TimeSeries::inclusive(start, end_e, step) } else { TimeSeries::exclusive(start, end_e, step) };
         let mut k: i128 = 0;
         let mut prev: Option<i128> = None;
+        if huge {
+            for j in 0..6i128 {
+                match it.next() {
+                    Some(e) if e.time_scale == s.ts && alpha(e.duration) == s.start + j * s.step => {}
+                    Some(e) => return Err((j, "skips-or-drifts-forward", format!("item #{j} = {}", s.start + j * s.step), format!("{} {}", scale_name(e.time_scale), alpha(e.duration)))),
+                    None => return Err((j, "stops-early", format!("{n_items} items"), format!("{j} items"))),
+                }
+            }
+            let it2 = if s.incl { TimeSeries::inclusive(start, end_e, step) } else { TimeSeries::exclusive(start, end_e, step) };
+            let head: Vec<Epoch> = it2.take(3).collect();
+            if head.len() != 3 || head.iter().enumerate().any(|(j, e)| alpha(e.duration) != s.start + j as i128 * s.step) {
+                return Err((3, "collect-differs-from-next", "3 items".into(), format!("{} items", head.len())));
+            }
+            return Ok(6);
+        }
         loop {
             match it.next() {
                 Some(e) => {
@@ -63,13 +80,39 @@ pub fn j_series(s: &Series, leap: &LeapTable, out: &mut Local) {
         if it.next().is_some() {
             return Err((k, "resumes-after-none", "None".into(), "Some".into()));
         }
+        // the other ways of driving the same iterator: collect, a for loop, and by_ref().take(j) followed by the rest
+        if n_items <= 100_000 {
+            let mk_it = || if s.incl { TimeSeries::inclusive(start, end_e, step) } else { TimeSeries::exclusive(start, end_e, step) };
+            let want = |j: i128| (s.ts, s.start + j * s.step);
+            let all: Vec<Epoch> = mk_it().collect();
+            if all.len() as i128 != n_items || all.iter().enumerate().any(|(j, e)| (e.time_scale, alpha(e.duration)) != want(j as i128)) {
+                return Err((k, "collect-differs-from-next", format!("{n_items} items"), format!("{} items", all.len())));
+            }
+            let mut cnt: i128 = 0;
+            for e in mk_it() {
+                if (e.time_scale, alpha(e.duration)) != want(cnt) {
+                    return Err((cnt, "for-loop-differs-from-next", format!("{:?}", want(cnt)), format!("{}", alpha(e.duration))));
+                }
+                cnt += 1;
+            }
+            if cnt != n_items {
+                return Err((cnt, "for-loop-differs-from-next", format!("{n_items} items"), format!("{cnt} items")));
+            }
+            let mut it2 = mk_it();
+            let head = (n_items / 2).min(3) as usize;
+            let mut both: Vec<Epoch> = it2.by_ref().take(head).collect();
+            both.extend(it2);
+            if both.len() as i128 != n_items || both.iter().enumerate().any(|(j, e)| (e.time_scale, alpha(e.duration)) != want(j as i128)) {
+                return Err((k, "resumed-iteration-differs", format!("{n_items} items"), format!("{} items", both.len())));
+            }
+        }
         Ok(k)
     });
     match r {
         Ok(Ok(k)) => {
             let multiple = s.span % s.step == 0;
             let nt = multiple || s.end_ts != s.ts || s.start < 0;
-            out.ok(k as u64 + 2, nt, (s.incl as u64) | (multiple as u64) << 1 | ((s.end_ts != s.ts) as u64) << 2 | ((k == 0) as u64) << 3 | ((k == 1) as u64) << 4);
+            out.ok(4 * k as u64 + 2, nt, (s.incl as u64) | (multiple as u64) << 1 | ((s.end_ts != s.ts) as u64) << 2 | ((k == 0) as u64) << 3 | ((k == 1) as u64) << 4);
             if out.want_sample(nt) {
                 out.sample("c15.series", args, format!("{k} items then None"), nt);
             }
@@ -176,6 +219,21 @@ pub fn medium_series(kmax: i128) -> Vec<Series> {
     v
 }
 
+/// series of 2^53 .. 2^80 items: the item count leaves i64/u64/usize; only the first items are stepped
+pub fn huge_series() -> Vec<Series> {
+    let mut v = vec![];
+    for (ts, start) in [(TimeScale::TAI, 0i128), (TimeScale::GPST, -NPC - 1), (TimeScale::UTC, -30_000 * NPC)] {
+        for (span, step) in [(3 * NPC, 1i128), ((1i128 << 63) + 5, 1), ((1i128 << 64) + 3, 1), (10_000 * NPC, 250), (10_000 * NPC, 1000), (60_000 * NPC, 1), (6 * NPC, 1), ((1i128 << 53) * 7 + 1, 7), (2 * NPC, 1)] {
+            for incl in [false, true] {
+                if start + span < DMAX {
+                    v.push(Series { ts, start, end_ts: ts, span, step, incl });
+                }
+            }
+        }
+    }
+    v
+}
+
 pub fn long_series() -> Vec<Series> {
     vec![
         // 1 ns steps over 5 ms across a century boundary of the count: 5 000 001 items
@@ -192,7 +250,7 @@ pub fn long_series() -> Vec<Series> {
 pub fn run(rep: &mut Report) {
     let q = rep.quick();
     let leap = LeapTable::load().expect("leap").0;
-    rep.rule = "every series of the product start (per scale: zero, before zero, century boundaries of the count, before/at/after three leap seconds) x span {0,1,2,5,6,7,10,59,60,61,63} units (and +-1 ns) x step {1,2,3,5,7} units x unit {ns, s, day (+ us, min, week thorough)} x {inclusive, exclusive} x end given in the start's scale or another one; each real iterator is stepped with next() to exhaustion and once more, and every yielded item is compared with start + k*step computed from the start. Medium series (five non-round steps x every item count 1..512 (thorough 2048) x spans -1..+3 ns around a whole number of steps). Long-span series (steps of 400 days .. one century, 2..120 steps, spans beyond the i64 nanosecond range) in both tiers; long series (millions of items) in the thorough tier. Non-trivial = span a whole multiple of the step, end in another scale, or start before the reference.".into();
+    rep.rule = "every series of the product start (per scale: zero, before zero, century boundaries of the count, before/at/after three leap seconds) x span {0,1,2,5,6,7,10,59,60,61,63} units (and +-1 ns) x step {1,2,3,5,7} units x unit {ns, s, day (+ us, min, week thorough)} x {inclusive, exclusive} x end given in the start's scale or another one; each real iterator is stepped with next() to exhaustion and once more, then driven again by collect(), by a for loop and by by_ref().take(j) + the rest, and every yielded item is compared with start + k*step computed from the start. Medium series (five non-round steps x every item count 1..512 (thorough 2048) x spans -1..+3 ns around a whole number of steps). Huge series (2^53 .. 2^80 items, nanosecond to microsecond steps over centuries): the first six items and take(3).collect(). Long-span series (steps of 400 days .. one century, 2..120 steps, spans beyond the i64 nanosecond range) in both tiers; long series (millions of items) in the thorough tier. Non-trivial = span a whole multiple of the step, end in another scale, or start before the reference.".into();
     rep.assumptions = vec!["end - start is measured in the end's time scale (left operand, C04); series whose start has no count in the end's scale (inside an inserted UTC interval) are don't-cares".into()];
     let sp = space(q);
     rep.bound("series", sp.len() as u64);
@@ -203,6 +261,9 @@ pub fn run(rep: &mut Report) {
     let msp = medium_series(if q { 512 } else { 2048 });
     rep.bound("medium_series", msp.len() as u64);
     sweep(rep, "c15.medium", msp.len() as u64, |i, out| j_series(&msp[i as usize], &leap, out));
+    let hs = huge_series();
+    rep.bound("huge_series", hs.len() as u64);
+    sweep(rep, "c15.huge", hs.len() as u64, |i, out| j_series(&hs[i as usize], &leap, out));
     if !q {
         let ls = long_series();
         rep.bound("long_series", ls.len() as u64);
